@@ -94,6 +94,30 @@ static void puthex (const char *s)
     for (; *s; s++) printf ("%02x", (unsigned char) *s);
 }
 
+/* ---- input placement for the memory-safety runs (C06) ----
+ *   DRV_PLACE=tight      every input lives in an exact-size heap block (ASan red zones on both sides)
+ *   DRV_PLACE=guard_end  the terminator is the last byte before a PROT_NONE page
+ *   DRV_PLACE=guard_start the first byte is the first byte after a PROT_NONE page
+ * any read outside [first byte, terminator] then faults and is reported as CRASH for that case. */
+#include <sys/mman.h>
+static int place_mode;
+static char *guard_base; static size_t guard_len;
+static char *place (const char *src, size_t n)       /* n bytes + terminator */
+{
+    if (place_mode == 1) { char *p = __real_malloc (n + 1); memcpy (p, src, n); p[n] = 0; return p; }
+    size_t pg = 4096, need = ((n + 1 + pg - 1) / pg) * pg;
+    guard_len = need + 2 * pg;
+    guard_base = mmap (NULL, guard_len, PROT_READ | PROT_WRITE, MAP_PRIVATE | MAP_ANONYMOUS, -1, 0);
+    mprotect (guard_base, pg, PROT_NONE); mprotect (guard_base + pg + need, pg, PROT_NONE);
+    char *p = place_mode == 2 ? guard_base + pg + need - (n + 1) : guard_base + pg;
+    memcpy (p, src, n); p[n] = 0;
+    return p;
+}
+static void unplace (char *p)
+{
+    if (place_mode == 1) __real_free (p); else if (guard_base) { munmap (guard_base, guard_len); guard_base = NULL; }
+}
+
 #define MAXF 12
 #define BUFSZ (1 << 17)
 static char a_buf[2 * BUFSZ + 8], b_buf[BUFSZ], c_buf[BUFSZ];
@@ -210,7 +234,7 @@ static void print_msg (eav_t *e)
 static void run_history (char **tok, int ntok)
 {
     eav_t *e = __real_malloc (sizeof *e);
-    memset (e, 0xA5, sizeof *e);
+    if (!getenv ("DRV_NOPOISON")) memset (e, 0xA5, sizeof *e);
     long base = n_alloc - n_free;
 #ifdef HAVE_IDNKIT
     long kit_base[4] = { verif_kit_created, verif_kit_destroyed, verif_kit_bad_destroy, verif_kit_use_after_destroy };
@@ -266,6 +290,7 @@ int main (void)
     signal (SIGSEGV, on_crash); signal (SIGABRT, on_crash); signal (SIGBUS, on_crash);
     signal (SIGFPE, on_crash); signal (SIGILL, on_crash);
     if (getenv ("DRV_LINEBUF")) setvbuf (stdout, NULL, _IOLBF, 0);
+    { const char *pm = getenv ("DRV_PLACE"); place_mode = !pm ? 0 : !strcmp (pm, "tight") ? 1 : !strcmp (pm, "guard_end") ? 2 : !strcmp (pm, "guard_start") ? 3 : 0; }
 #ifdef HAVE_IDNKIT
     idn_resconf_create (&g_ctx);
 #endif
@@ -280,15 +305,22 @@ int main (void)
             size_t n = unhex (f[1], a_buf);
             size_t r = unhex (nf > 2 ? f[2] : "-", a_buf + n);
             a_buf[n + r] = 0;
-            const char *s = a_buf, *e = a_buf + n;
+            char *placed = place_mode ? place (a_buf, n + r) : NULL;
+            const char *s = placed ? placed : a_buf, *e = s + n;
             if (k == 'L') printf ("%d %d %d %d\n", is_822_local (s, e), is_5321_local (s, e), is_5322_local (s, e), is_6531_local (s, e));
             else if (k == 'D') printf ("%d\n", is_ascii_domain (s, e));
             else if (k == '4') printf ("%d\n", is_ipv4 (s, e));
             else if (k == '6') printf ("%d\n", is_ipv6 (s, e));
             else printf ("%d\n", is_ipaddr (s, e));
+            if (placed) unplace (placed);
         }
-        else if (k == 'S') { size_t n = unhex (f[1], a_buf); printf ("%d\n", is_special_domain (a_buf, a_buf + n)); }
-        else if (k == 'T') { size_t n = unhex (f[1], a_buf); printf ("%d\n", is_tld (a_buf, a_buf + n)); }
+        else if (k == 'S' || k == 'T') {
+            size_t n = unhex (f[1], a_buf);
+            char *placed = place_mode ? place (a_buf, n) : NULL;
+            const char *s = placed ? placed : a_buf;
+            printf ("%d\n", k == 'S' ? is_special_domain (s, s + n) : is_tld (s, s + n));
+            if (placed) unplace (placed);
+        }
         else if (k == 'U' || k == 'E' || k == 'K') {
             int off = k != 'U' ? 1 : 0;
             int m = k != 'U' ? atoi (f[1]) : 3;
@@ -296,6 +328,9 @@ int main (void)
             size_t n = unhex (f[2 + off], a_buf);
             o_rc = atoi (f[3 + off]); unhex (f[4 + off], b_buf); o_out = b_buf; o_buf = atoi (f[5 + off]);
             idn_calls = 0; idn_argok = 1;
+            char *placed = place_mode ? place (a_buf, n) : NULL;
+            if (placed) { memcpy (c_buf, a_buf, n + 1); }
+            const char *in = placed ? placed : a_buf;
             long base = n_alloc - n_free;
             if (k == 'U') {
 #ifdef HAVE_IDNKIT
@@ -303,24 +338,25 @@ int main (void)
 #else
                 int ir = 0;
 #endif
-                o_expect = a_buf;
-                int rc = CALL_U8DOM (&ir, a_buf, a_buf + n, tld);
+                o_expect = in;
+                int rc = CALL_U8DOM (&ir, in, in + n, tld);
                 printf ("%d %d %d %d %ld\n", rc, (int) ir, idn_calls, idn_argok, n_alloc - n_free - base);
             } else if (k == 'K') {
                 int f4, f6, fd, ir;
-                const char *at = strrchr (a_buf, '@');
+                const char *at = strrchr (in, '@');
                 o_expect = at ? at + 1 : NULL;
-                int rc = compose (m, a_buf, n, tld, &f4, &f6, &fd, &ir);
+                int rc = compose (m, in, n, tld, &f4, &f6, &fd, &ir);
                 printf ("%d %d %d%d%d\n", rc, ir, f4, f6, fd);
             } else {
-                const char *at = strrchr (a_buf, '@');
+                const char *at = strrchr (in, '@');
                 o_expect = at ? at + 1 : NULL;
-                eav_result_t *r = call_email (m, a_buf, n, tld);
+                eav_result_t *r = call_email (m, in, n, tld);
                 print_result (r);
                 long live = n_alloc - n_free - base;
                 eav_result_free (r);
                 printf (" %d %d %ld %ld\n", idn_calls, idn_argok, live, n_alloc - n_free - base);
             }
+            if (placed) unplace (placed);
         }
         else if (k == 'M') {
             eav_t e; eav_init (&e);
